@@ -320,6 +320,53 @@ def xls_bytes(rng, wb):
     return xlsgen.write_xls({"sst": sst, "sheets": sheets}, opts={"pad_to": rng.choice([0, 4096])}, rng=rng)
 
 
+
+# ----------------------------------------------------------------------------- xlsb (via tools/xlsbgen.py of C03)
+
+def xlsb_bytes(rng, wb):
+    import struct, xlsbgen
+    ERR = {"#NULL!": 0x00, "#DIV/0!": 0x07, "#VALUE!": 0x0F, "#REF!": 0x17, "#NAME?": 0x1D, "#NUM!": 0x24, "#N/A": 0x2A}
+    fr = lambda rid, body: xlsbgen.min_fr(rid, body)
+    sheets = []
+    for sh in wb["sheets"]:
+        items = []
+        cells = sh["cells"]
+        prev = None
+        for (r, c), v in sorted(cells.items()):
+            if r != prev:
+                it = {"k": "row", "row": r, "tail": b"\0" * 13}
+                it["fr"] = fr(0, xlsbgen.item_body(it))
+                items.append(it)
+                prev = r
+            if v[0] == "n":
+                val = ("real", struct.unpack("<Q", struct.pack("<d", v[1]))[0])
+            elif v[0] == "b":
+                val = ("bool", v[1])
+            elif v[0] == "e":
+                val = ("err", ERR[v[1]])
+            else:
+                val = ("st", v[1])
+            it = {"k": "cell", "col": c, "style": 0, "fl": 0, "v": val, "tail": b""}
+            it["fr"] = fr(xlsbgen.item_id(it), xlsbgen.item_body(it))
+            items.append(it)
+        if cells:
+            rs = [p[0] for p in cells]; cs = [p[1] for p in cells]
+            box = (min(rs), min(cs), max(rs), max(cs))
+        else:
+            box = (0, 0, 0, 0)
+        d = rng.choice(["exact", "small", "large"])
+        if d == "small":
+            box = (box[0], box[1], box[0] + (box[2] - box[0]) // 2, box[1] + (box[3] - box[1]) // 2)
+        elif d == "large":
+            box = (0, 0, box[2] + 5, box[3] + 2)
+        dim_body = struct.pack("<IIII", box[0], box[2], box[1], box[3])
+        L = {"pre1": [{"fr": fr(0x81, b""), "id": 0x81, "body": b""}],
+             "dim": {"fr": fr(0x94, dim_body), "d": box, "tail": b""},
+             "pre2": [], "begin": (fr(0x91, b""), b""), "items": items, "end": (fr(0x92, b""), b""), "trailer": b""}
+        sheets.append((sh["name"][:31], xlsbgen.enc_layout(L)))
+    env = {"fmts": [0], "xf_ids": [0], "customs": [], "d1904": False, "strings": []}
+    return xlsbgen.package_bytes(sheets, env, sst=None, compress=rng.random() < 0.6)
+
 # ----------------------------------------------------------------------------- driver
 
 def generate(ctx, n=20, formats=("xlsx", "ods", "xls", "xlsb")):
@@ -327,10 +374,6 @@ def generate(ctx, n=20, formats=("xlsx", "ods", "xls", "xlsb")):
     d = os.path.join(vlib.tmpdir(ctx), "gensheets")
     os.makedirs(d, exist_ok=True)
     res = []
-    try:
-        import xlsbgen                      # delivered by the C03 slice; optional
-    except ImportError:
-        xlsbgen = None
     for k in range(n):
         wb = gen_workbook(rng)
         if "xlsx" in formats:
@@ -358,11 +401,12 @@ def generate(ctx, n=20, formats=("xlsx", "ods", "xls", "xlsb")):
                 res.append(("xls", p))
             except Exception as e:           # generator limitation, never a finding
                 ctx.count("gen:xls:skipped")
-        if "xlsb" in formats and xlsbgen is not None and hasattr(xlsbgen, "from_logical"):
+        if "xlsb" in formats:
             try:
                 p = os.path.join(d, "g%d.xlsb" % k)
-                open(p, "wb").write(xlsbgen.from_logical(rng, wb))
+                open(p, "wb").write(xlsb_bytes(rng, wb))
                 res.append(("xlsb", p))
-            except Exception:
+            except Exception as e:           # generator limitation, never a finding
                 ctx.count("gen:xlsb:skipped")
+                ctx.notes.append("xlsb generation skipped: %r" % (e,)) if len(ctx.notes) < 3 else None
     return res
